@@ -57,6 +57,8 @@ struct Peer
   void Listen(int rcvbuf)
   {
     lfd = ::socket(AF_INET, SOCK_STREAM, 0);
+    int one = 1;
+    ::setsockopt(lfd, SOL_SOCKET, SO_REUSEADDR, &one, sizeof(one)); // ports of earlier cases may linger in TIME_WAIT
     if(rcvbuf > 0) ::setsockopt(lfd, SOL_SOCKET, SO_RCVBUF, &rcvbuf, sizeof(rcvbuf)); // inherited by accept()
     sockaddr_in a{};
     a.sin_family = AF_INET;
@@ -84,9 +86,14 @@ struct Peer
     }
     return out;
   }
+  // reset rather than FIN: leaves no TIME_WAIT entry behind (thousands of cases share the ephemeral port range)
   void Close()
   {
-    if(fd >= 0) ::close(fd);
+    if(fd >= 0) {
+      linger lg{1, 0};
+      ::setsockopt(fd, SOL_SOCKET, SO_LINGER, &lg, sizeof(lg));
+      ::close(fd);
+    }
     if(lfd >= 0) ::close(lfd);
     fd = lfd = -1;
   }
@@ -214,9 +221,9 @@ struct Scen
 
   void Close()
   {
+    peer.Close(); // the peer resets first: no TIME_WAIT on either side
     sock.reset();
     driver.reset();
-    peer.Close();
     futs.clear();
     pool.reset();
   }
